@@ -23,6 +23,8 @@ HARNESSES = {
     "vhist2": ("vhist.cpp", ["VHIST_GROUP=2"]),
     "vhist3": ("vhist.cpp", ["VHIST_GROUP=3"]),
     "dhist": ("dhist.cpp", []),
+    "lrhist": ("lrhist.cpp", []),
+    "slhist": ("slhist.cpp", []),
 }
 
 
@@ -136,6 +138,14 @@ def c12_jobs(tier):
     tag = scale(tier, "quick", "")
     return [job("dhist", scale(tier, 200000, 6000000), workers=13, tag=tag, plain_pct=15),
             job("dhist", scale(tier, 20000, 600000), workers=3, tag=tag, params={"sequential": 1}, step_cap=400000)]
+
+
+def c13_jobs(tier):
+    return [job("lrhist", scale(tier, 240000, 6000000), workers=16, plain_pct=20)]
+
+
+def c14_jobs(tier):
+    return [job("slhist", scale(tier, 240000, 6000000), workers=16, tag=scale(tier, "quick", ""), plain_pct=10)]
 
 
 NOT_YET = {}
@@ -348,5 +358,36 @@ PROPS = {
                 "a multiple of the capacity, or a steal overlapped a pop. Distinct: program + history.",
         "nontrivial_floor": 0.1,
         "assumptions": ["sequentially consistent interleavings in this check (the weak tier is C03)", "exactly one owner thread"],
+    },
+    "C13": {
+        "jobs": c13_jobs,
+        "level_text": "Sampled exploration of 1-2 writers and 1-3 readers on left_right<Pair>; overlap flags maintained by the functors decide "
+                      "mutual exclusion per instance, the logs decide exactly-once application in the same order, a register specification "
+                      "decides linearizability of reads.",
+        "level_note": "Trusted: runtime (std::mutex and this_thread::yield are interposed), checker; SC interleavings here, the race-detector "
+                      "version of the exclusion property is part of C03.",
+        "technique": "property-based testing: generated reader/writer programs + schedules vs overlap flags, per-instance logs and linearizability checker (register spec)",
+        "rule": "case = 1-2 writers x up to 6 update(f_i) (f_i sets a=b=i with a scheduling point in between and appends i to the instance's "
+                "log) and 1-3 readers x up to 6 read(functor reading a, scheduling point, b) x generated schedule. Oracle: no functor pair "
+                "(writer/reader, writer/writer) inside the same instance, a==b in every read, every f_i applied exactly once per instance, "
+                "equal logs, reads/updates linearizable w.r.t. a register. Non-trivial: a read functor ran while some update was in progress. "
+                "Distinct: program + history.",
+        "nontrivial_floor": 0.2,
+        "assumptions": ["sequentially consistent interleavings"],
+    },
+    "C14": {
+        "jobs": c14_jobs,
+        "level_text": "Sampled exploration of 1-2 writers (store and update) and 1-3 readers over element types of sizes 9-40 bytes with "
+                      "alignments 1/2/4/8 and 1-8 slots; every loaded value is compared byte-wise with the set of values ever stored and the "
+                      "history is checked against an atomic register with read-modify-write.",
+        "level_note": "Trusted: runtime, checker; element types are padding-free so byte comparison is meaningful.",
+        "technique": "property-based testing: generated store/update/load programs + schedules vs byte-exact value oracle and linearizability checker (RMW register spec)",
+        "rule": "case = element type (byte arrays of 9/12/16/20/24/33 bytes, uint16x5, uint32x3, uint64x2/3/4, packed struct) x slots "
+                "{1,2,3,4,8} x 1-2 writers x up to 6 store/update and 1-3 readers x up to 6 load x generated schedule. Oracle: every byte of a "
+                "loaded value is the byte of one stored value (all sizeof(T) bytes of the same value), history linearizable w.r.t. a register "
+                "with read-modify-write (no lost update, no going back). Non-trivial: a load overlapped a store/update. Distinct: program + "
+                "history.",
+        "nontrivial_floor": 0.2,
+        "assumptions": ["sequentially consistent interleavings", "the seqlock is constructed with an explicit initial value"],
     },
 }
